@@ -212,6 +212,22 @@ class Facts:
                 k = g['q']
                 if k not in self.globals or g['is_def']:
                     self.globals[k] = g
+        # named constants read like the literal they stand for: a reference to a const global that is initialised from one
+        # integer constant expression or one string literal becomes that literal (the reference is kept in 'from_global')
+        for f in self.functions:
+            if f.get('body') is None:
+                continue
+            for e in walk_all_exprs(f['body']):
+                if e.get('k') == 'ref' and e.get('dk') == 'global':
+                    g = self.globals.get(e.get('q'))
+                    if g is None or not (g.get('const') or g.get('constexpr')):
+                        continue
+                    if g.get('const_value') is not None:
+                        e['from_global'] = e.get('q')
+                        e['k'], e['v'] = 'int', g['const_value']
+                    elif g.get('const_str') is not None:
+                        e['from_global'] = e.get('q')
+                        e['k'], e['v'] = 'str', g['const_str']
         # front-end health
         bad = [x for x in self.diagnostics if x['level'] == 'error' and x['in_root']]
         if bad:
